@@ -14,8 +14,9 @@ import time
 
 ROOT = os.path.dirname(os.path.dirname(os.path.abspath(__file__)))
 REPO = os.environ.get("VERIF_REPO", "/repo")
-BUILD = os.path.join(ROOT, "build")
-EVID = os.path.join(ROOT, "evidence")
+ALT = REPO != "/repo"      # checks pointed at another checkout (seeded-change trials): separate build/evidence dirs, no purging
+BUILD = os.path.join(ROOT, "build") if not ALT else os.path.join(ROOT, "build", "alt-" + hashlib.sha256(REPO.encode()).hexdigest()[:10])
+EVID = os.path.join(ROOT, "evidence") if not ALT else os.path.join(BUILD, "evidence")
 NCPU = int(os.environ.get("VERIF_JOBS", str(os.cpu_count() or 4)))
 GUARD = "CHAISCRIPT_VERIF"
 
@@ -123,10 +124,12 @@ def build(flavour, harnesses, extra_flags=None):
     comp, cflags, lflags = FLAVOURS[flavour]
     d = flavour_dir(flavour)
     os.makedirs(d, exist_ok=True)
+    os.makedirs(BUILD, exist_ok=True)
     lockf = open(os.path.join(BUILD, flavour + ".lock"), "w")
     fcntl.flock(lockf, fcntl.LOCK_EX)
     try:
-        _purge_old(flavour, d)
+        if not ALT:
+            _purge_old(flavour, d)
         jobs = []
         hdir = os.path.join(ROOT, "harness")
         common = [os.path.join(hdir, "common.hpp"), os.path.join(hdir, "libs.hpp")]
@@ -477,7 +480,7 @@ class Ctx:
     def finish(self, extra_cov=None):
         wall = time.time() - self.t0
         os.makedirs(EVID, exist_ok=True)
-        replay_dir = os.path.join(ROOT, "build", "replay")
+        replay_dir = os.path.join(BUILD, "replay")
         os.makedirs(replay_dir, exist_ok=True)
         for full, (txt, w) in sorted(self.known_seen.items()):
             print("KNOWN-FINDING: property=%s %s (key=%s, seen %d times this run)" % (self.prop, txt, full, self.viol_count[full]))
